@@ -4,6 +4,7 @@ package harness
 
 import (
 	"fmt"
+	"time"
 )
 
 // ReplaySource feeds a recorded history (no rapid involved).
@@ -74,15 +75,23 @@ func violationf(format string, a ...interface{}) error {
 
 // RunPrimary drives a fresh replica from src, maintaining the model and recording the history.
 // The caller owns c.Sim (must Close it).
+var tmAcc = map[string]time.Duration{}
+
+func tm(k string, t0 time.Time) { tmAcc[k] += time.Since(t0) }
+
 func RunPrimary(prop string, src Source, o *PrimaryOpts) (*Case, error) {
+	t00 := time.Now()
 	g := src.Genesis()
 	c := &Case{Prop: prop, Hist: &History{Property: prop, Genesis: g}, W: NewWorld(g)}
 	c.Sim = NewSim(g)
+	tm("newsim", t00)
 	if o == nil {
 		o = &PrimaryOpts{}
 	}
 	for {
+		t0 := time.Now()
 		b := src.StartBlock(c.W)
+		tm("startblock", t0)
 		if b == nil {
 			return c, nil
 		}
@@ -95,7 +104,9 @@ func RunPrimary(prop string, src Source, o *PrimaryOpts) (*Case, error) {
 			hk = o.BlockHooks(c, b)
 		}
 		br := &BlockResult{Height: c.Sim.H + 1}
+		t0 = time.Now()
 		ev, perr := c.Sim.Begin(b)
+		tm("begin", t0)
 		if perr != nil {
 			return c.panicked(perr)
 		}
@@ -106,7 +117,9 @@ func RunPrimary(prop string, src Source, o *PrimaryOpts) (*Case, error) {
 		}
 		var outs []TxOutcome
 		for {
+			t0 = time.Now()
 			raw, note := src.NextTx(c.W, b)
+			tm("gentx", t0)
 			if raw == nil {
 				break
 			}
@@ -116,12 +129,16 @@ func RunPrimary(prop string, src Source, o *PrimaryOpts) (*Case, error) {
 			if hk != nil && hk.BeforeTx != nil {
 				hk.BeforeTx(i)
 			}
+			t0 = time.Now()
 			res, perr := c.Sim.Deliver(raw)
+			tm("deliver", t0)
 			if perr != nil {
 				return c.panicked(perr)
 			}
 			br.Txs = append(br.Txs, res)
+			t0 = time.Now()
 			out := c.W.ApplyTx(raw, res)
+			tm("applytx", t0)
 			outs = append(outs, out)
 			if hk != nil && hk.AfterTx != nil {
 				hk.AfterTx(i, res)
@@ -131,7 +148,9 @@ func RunPrimary(prop string, src Source, o *PrimaryOpts) (*Case, error) {
 			}
 		}
 		c.Outcomes = append(c.Outcomes, outs)
+		t0 = time.Now()
 		ups, eev, perr := c.Sim.End()
+		tm("end", t0)
 		if perr != nil {
 			return c.panicked(perr)
 		}
@@ -141,18 +160,24 @@ func RunPrimary(prop string, src Source, o *PrimaryOpts) (*Case, error) {
 			hk.AfterEnd()
 		}
 		src.EndBlock(c.W, b)
+		t0 = time.Now()
 		hash, perr := c.Sim.Commit()
+		tm("commit", t0)
 		if perr != nil {
 			return c.panicked(perr)
 		}
 		br.AppHash = hash
+		t0 = time.Now()
 		c.W.Commit()
+		tm("wcommit", t0)
 		c.Results = append(c.Results, br)
 		if hk != nil && hk.AfterCommit != nil {
 			hk.AfterCommit()
 		}
 		tmErr := c.W.TM.ApplyEndBlock(br.Height, br.ValUpdates)
+		t0 = time.Now()
 		c.W.SyncAfterCommit(c.Sim)
+		tm("sync", t0)
 		if err := tmErr; err != nil {
 			if err == errEmptySet {
 				c.EndedBy = "empty_validator_set"
